@@ -2,6 +2,9 @@
 import heapq, random, sys, time as _time
 
 class _Callback(object):
+    # mirrors gevent's own loop callback object: `pending` is cleared before the function runs,
+    # `args` (and therefore the truth value) survive until it has returned.  Semaphore and
+    # AsyncResult use the truth value of their notifier, and `notifier.args[0]` while it runs.
     __slots__ = ('func', 'args', 'stopped')
     def __init__(self, func, args):
         self.func, self.args, self.stopped = func, args, False
@@ -11,7 +14,7 @@ class _Callback(object):
     @property
     def pending(self):
         return not self.stopped and self.func is not None
-    def __bool__(self): return self.pending
+    def __bool__(self): return self.args is not None
 
 class _Timer(object):
     def __init__(self, loop, after, repeat=0.0):
@@ -56,11 +59,13 @@ class VLoop(object):
                 cb = self._callbacks.pop(i)
                 if cb.stopped: continue
                 func, args = cb.func, cb.args
-                cb.stop()
+                cb.func = None
                 try:
                     func(*args)
                 except BaseException:
                     self.handle_error(cb, *sys.exc_info())
+                finally:
+                    cb.stop()
             # advance time
             while self._timers and not self._timers[0][2]._active:
                 heapq.heappop(self._timers)
